@@ -740,13 +740,9 @@ impl<'p, 's, M: Matcher, W: WriteColor> StandardSink<'p, 's, M, W> {
                 true
             },
         )?;
-        // Don't report empty matches appearing at the end of the bytes.
-        if !matches.is_empty()
-            && matches.last().unwrap().is_empty()
-            && matches.last().unwrap().start() >= range.end
-        {
-            matches.pop().unwrap();
-        }
+        // (An empty match at the end of the range is only reported by
+        // `find_iter_at_in_context` when it belongs to the range, i.e., at
+        // the very end of an unterminated last line.)
         Ok(())
     }
 
